@@ -98,7 +98,7 @@ def _lin(seed):
 
 class Entry:
     def __init__(self, name, make, task, kw=None, mode="max", feat=True, samplewise=False,
-                 binary=False, max_bs=None, slow=False, needs_labels=False, wrapper=False, setdep=False, anyidx=None, subsample=None):
+                 binary=False, max_bs=None, slow=False, needs_labels=False, wrapper=False, setdep=False, anyidx=None, subsample=None, stochastic=False):
         self.name, self.make, self.task = name, make, task
         self.kw = kw or (lambda classes, seed: {})
         self.mode, self.feat, self.samplewise = mode, feat, samplewise
@@ -106,6 +106,7 @@ class Entry:
         self.needs_labels, self.wrapper, self.setdep = needs_labels, wrapper, setdep
         self.anyidx = samplewise if anyidx is None else anyidx
         self.subsample = subsample   # documented sub-sample fraction (SubSamplingWrapper)
+        self.stochastic = stochastic  # scores are Monte-Carlo / bootstrap estimates: draws are consumed in row order
 
 
 def registry():
@@ -124,11 +125,11 @@ def registry():
     for m in ("KL_divergence", "vote_entropy"):
         E.append(Entry(f"QueryByCommittee[{m}]", lambda c, s, m=m: P.QueryByCommittee(method=m, random_state=s), "clf",
                        lambda c, s: {"ensemble": _ens(c, s)}, samplewise=True))
-    E.append(Entry("Quire", lambda c, s: P.Quire(classes=list(c), random_state=s), "clf", feat=False, slow=True))
+    E.append(Entry("Quire", lambda c, s: P.Quire(classes=list(c), random_state=s), "clf", feat=False, samplewise=True, anyidx=False))
     E.append(Entry("FourDs", lambda c, s: P.FourDs(random_state=s), "clf", lambda c, s: {"clf": _mix(c, s)}, feat=False, setdep=True))
-    E.append(Entry("CostEmbeddingAL", lambda c, s: P.CostEmbeddingAL(classes=list(c), random_state=s), "clf", slow=True, samplewise=True))
+    E.append(Entry("CostEmbeddingAL", lambda c, s: P.CostEmbeddingAL(classes=list(c), random_state=s), "clf", slow=True, samplewise=True, stochastic=True))
     E.append(Entry("ExpectedModelChangeMaximization", lambda c, s: P.ExpectedModelChangeMaximization(random_state=s), "reg",
-                   lambda c, s: {"reg": _lin(s)}, samplewise=True))
+                   lambda c, s: {"reg": _lin(s)}, samplewise=True, stochastic=True))
     E.append(Entry("ExpectedModelOutputChange", lambda c, s: P.ExpectedModelOutputChange(random_state=s), "reg",
                    lambda c, s: {"reg": _nic(s)}, samplewise=True, slow=True))
     E.append(Entry("ExpectedModelVarianceReduction", lambda c, s: P.ExpectedModelVarianceReduction(random_state=s), "reg",
@@ -137,7 +138,7 @@ def registry():
                    lambda c, s: {"reg": _nic(s)}, samplewise=True, slow=True))
     E.append(Entry("KLDivergenceMaximization[monte_carlo]", lambda c, s: P.KLDivergenceMaximization(
         integration_dict_cross_entropy={"method": "monte_carlo", "n_integration_samples": 5}, random_state=s), "reg",
-        lambda c, s: {"reg": _nic(s)}, samplewise=True, slow=True))
+        lambda c, s: {"reg": _nic(s)}, samplewise=True, slow=True, stochastic=True))
     E.append(Entry("GreedySamplingX", lambda c, s: P.GreedySamplingX(random_state=s), "reg", samplewise=True))
     E.append(Entry("GreedySamplingTarget", lambda c, s: P.GreedySamplingTarget(random_state=s), "reg", lambda c, s: {"reg": _lin(s)}, samplewise=True))
     for g in (False, True):
